@@ -300,7 +300,7 @@ func (r *DeviceLocal) FeatureByAddress(address *model.FeatureAddressType) api.Fe
 }
 
 func (r *DeviceLocal) CleanRemoteEntityCaches(remoteAddress *model.EntityAddressType) {
-	for _, entity := range r.entities {
+	for _, entity := range r.Entities() {
 		for _, feature := range entity.Features() {
 			feature.CleanRemoteEntityCaches(remoteAddress)
 		}
